@@ -1,8 +1,16 @@
 use crate::mc::PropSpec;
+pub mod c01;
+pub mod c02;
+pub mod c03;
+pub mod c04;
 pub mod c07;
 
 pub fn spec(id: &str) -> Option<PropSpec> {
   Some(match id {
+    "C01" => c01::spec(),
+    "C02" => c02::spec(),
+    "C03" => c03::spec(),
+    "C04" => c04::spec(),
     "C07" => c07::spec(),
     _ => return None,
   })
